@@ -1019,6 +1019,12 @@ func dischargeSlice(e *Env, s panicSite) (string, bool) {
 				if bi, ok := lc.Call.Value.(*ssa.Builtin); ok && bi.Name() == "len" && (lc.Call.Args[0] == sl.X || sameLoad(lc.Call.Args[0], sl.X)) {
 					// need len >= lo + d
 					if fk == "(*internal/cmd/runner.Printer).EndIndent" {
+						if lo != 0 || d != 1 {
+							return fmt.Sprintf("EndIndent removes %d entries from position %d: the pairing argument needs exactly one pop per push", d, lo), false
+						}
+						if why, ok := indentPushesOne(e); !ok {
+							return why, false
+						}
 						if why, ok := pairedIndent(e); ok {
 							return "(g) " + why, true
 						} else {
@@ -1038,6 +1044,40 @@ func dischargeSlice(e *Env, s panicSite) (string, bool) {
 		}
 	}
 	return "slice bounds not shown to be in range", false
+}
+
+// indentPushesOne: Printer.Indent stores append(<the indents field>, <one element>) into that field.
+func indentPushesOne(e *Env) (string, bool) {
+	fn := e.P.Func("internal/cmd/runner", "Printer.Indent")
+	if fn == nil {
+		return "Printer.Indent not found", false
+	}
+	for _, b := range fn.Blocks {
+		for _, ins := range b.Instrs {
+			st, ok := ins.(*ssa.Store)
+			if !ok {
+				continue
+			}
+			fa, ok := st.Addr.(*ssa.FieldAddr)
+			if !ok || fieldName(fa) != "indents" {
+				continue
+			}
+			ap, ok := st.Val.(*ssa.Call)
+			if !ok {
+				continue
+			}
+			if bi, isB := ap.Call.Value.(*ssa.Builtin); !isB || bi.Name() != "append" || len(ap.Call.Args) != 2 {
+				continue
+			}
+			if !derivesFromField(ap.Call.Args[0], "indents", 0) {
+				continue
+			}
+			if len(varargs(ap.Call.Args[1])) == 1 && len(fn.Blocks) == 1 {
+				return "", true
+			}
+		}
+	}
+	return "Printer.Indent does not push exactly one entry (indents = append(indents, s)) unconditionally: EndIndent would slice below zero", false
 }
 
 // pairedIndent: every call of EndIndent is the deferred partner of an Indent in the same function.
